@@ -298,6 +298,15 @@ func (r *Run) dischargeBatch(obs []*Ob) {
 					r.siteViol[ob.Site] = v
 				}
 			}
+			if v != nil && strings.HasPrefix(v.Site, "benign:") {
+				// the disagreement was examined on the real code and found not to be one (reason in the note)
+				or.status = "discharged"
+				r.Note("%s: %s", ob.Name, v.What)
+				if ob.Site != "" {
+					delete(r.siteViol, ob.Site)
+				}
+				break
+			}
 			if v == nil {
 				or.status = "inconclusive"
 				r.Infra("obligation %s answered %s (expected %s) but the counterexample did not reproduce on the real code", ob.Name, res.Status, ob.Expect)
